@@ -160,10 +160,138 @@ def gen_shared_var_case(rng):
     return {"stream": "ext-d/shared-var", "f": f, "n": n1, "data": w1, "exts": exts, "decl": vs}
 
 
+def const_bound_spelling(rng, a, b, unit, u, pns, consts):
+    """The interval [a,b] (samples of `pns` ns) with ONE bound written with the explicit unit `u` (another unit than the default
+    unit `unit` of the specification) and the OTHER bound a declared constant without a unit of its own: by the rule for a
+    missing unit the constant is a number of `u` (the unit of the other bound), not of the default unit.  Mostly the constant is
+    the upper bound (`[500ms,K0]`); mirrored (`[K0,2000ms]`) otherwise."""
+    from . import c08
+    lo, hi = c08.dec(a * pns / c08.NS[u]), c08.dec(b * pns / c08.NS[u])
+    nm = "K%d" % len(consts)
+    if rng.random() < 0.7 or a == 0:
+        consts.append([nm, "float" if "." in hi else "int", hi])
+        return lo + u, nm, "upper"
+    consts.append([nm, "float" if "." in lo else "int", lo])
+    return nm, hi + u, "lower"
+
+
+def const_bound_text(rng, f, bound, unit, u, pns, consts):
+    """Text of f = [and/or] (bounded future operator), the interval of that operator spelled by const_bound_spelling, every
+    other interval by `bound` (numerals in the default unit).  Returns (text, which bound is the constant)."""
+    if f[0] == "b":
+        t, which = const_bound_text(rng, f[2], bound, unit, u, pns, consts)
+        return "((%s) %s (%s))" % (t, F.BIN_TXT[f[1]], F.to_text(f[3], bound)), which
+    lo, hi, which = const_bound_spelling(rng, f[2], f[3], unit, u, pns, consts)
+    if f[0] == "tb1":
+        return "(%s[%s,%s] (%s))" % (F.T1_TXT[f[1]], lo, hi, F.to_text(f[4], bound)), which
+    return "((%s) %s[%s,%s] (%s))" % (F.to_text(f[4], bound), f[1], lo, hi, F.to_text(f[5], bound)), which
+
+
+def const_bound_formula(rng, g):
+    """A bounded eventually / always / until with b > a directly over shallow operands, sometimes under and / or."""
+    a = rng.randint(0, 2)
+    b = a + rng.randint(1, 3)
+    opnd = lambda: ("b", rng.choice(F.CMP), ("v", rng.choice(VARS)), ("c", float(rng.choice([0, 0, 1, 3])))) if rng.random() < 0.6 else g.formula(rng.choice([0, 1]))  # noqa: E731
+    if rng.random() < 0.75:
+        f = ("tb1", rng.choice(F.TB1_FUT), a, b, opnd())
+    else:
+        f = ("tb2", "until", a, b, opnd(), opnd())
+    if rng.random() < 0.3:
+        f = ("b", rng.choice(["and", "or"]), f, g.formula(rng.choice([0, 1])))
+    return f
+
+
+def gen_const_bound_case(rng):
+    """stream `ext-d/const-bound`: the horizon comes from an interval with one explicit unit (not the default unit) and one
+    declared constant without unit; default unit and explicit unit are neighbours (factor 1000), the period is a multiple of
+    the smaller one.  Traces of length hor+1..hor+8 (settled positions exist), two extensions as in gen_case."""
+    from fractions import Fraction
+    from . import c08
+    g = F.Gen(rng, VARS, ALLOW, max_bound=2)
+    f = const_bound_formula(rng, g)
+    i = rng.randint(0, len(c08.UNITS) - 2)
+    unit, u = (c08.UNITS[i], c08.UNITS[i + 1]) if rng.random() < 0.7 else (c08.UNITS[i + 1], c08.UNITS[i])
+    small = c08.UNITS[i + 1]
+    pns = Fraction(rng.choice([1, 2, 5, 250, 500, 1000])) * c08.NS[small]
+    punit = small if rng.random() < 0.7 else "ns"
+    period = pns / c08.NS[punit]
+    consts = []
+    bound = lambda k: c08.dec(k * pns / c08.NS[unit])      # noqa: E731
+    text, which = const_bound_text(rng, f, bound, unit, u, pns, consts)
+    top = f[2] if f[0] == "b" else f
+    n1 = top[3] + rng.randint(1, 8)
+    vs = F.variables(f) or ["a"]
+    w1 = F.gen_trace(rng, vs, n1)
+    exts = []
+    for _ in range(2):
+        k = rng.randint(1, 6)
+        tail = F.gen_trace(rng, vs, k, vals=(-9.0, -3.0, 0.0, 3.0, 9.0, 100.0, -100.0))
+        exts.append({v: w1[v] + tail[v] for v in vs})
+    return {"stream": "ext-d/const-bound", "f": f, "n": n1, "data": w1, "exts": exts, "decl": vs,
+            "cb": ["out = " + text, unit, str(period), punit, consts, which]}
+
+
+def explore_dense_const_bound(ctx, rng, count):
+    """stream `ext-c/const-bound`: the same spelling on the dense-time offline monitor (default unit s, one bound unit of the
+    dense generator lasts D.SCALE s): `[250ms,K0]` with `const int K0 = 1000`.  Settled region and comparison as in the dense
+    extension stream (D.check_extension): t + h < end of w1, nothing else is compared."""
+    from . import c08
+    from .. import dense as D
+    for _ in range(count):
+        g = D.DGen(rng, D.VARS[:2], D.DENSE_OFF - {"ufuture", "until"}, max_bound=2)
+        a = rng.randint(0, 3)
+        f = ("tb1", rng.choice(F.TB1_FUT), a, a + rng.randint(1, 4), g.formula(rng.choice([0, 0, 1])))
+        if rng.random() < 0.3:
+            f = ("b", rng.choice(["and", "or"]), f, g.formula(rng.choice([0, 1])))
+        vs = F.variables(f) or ["x"]
+        w1 = D.gen_signals(rng, vs)
+        end1 = max(s[-1][0] for s in w1.values())
+        w2 = {}
+        for v in vs:
+            tail = D.gen_signal(rng, end1 + D.GRID * rng.choice([1, 2, 4]), nmax=4)
+            w2[v] = w1[v] + [(t, rng.choice((-9.0, 9.0, 100.0, -100.0, 0.0))) for (t, _) in tail]
+        consts = []
+        text, which = const_bound_text(rng, f, D.bound_txt, "s", rng.choice(["ms", "ms", "us"]), int(D.SCALE * 10 ** 9), consts)
+        ctx.evaluations += 1
+        ctx.count("stream:ext-c/const-bound")
+        ctx.count("const-bound:" + which)
+        v = check_dense_const_bound(ctx, f, w1, w2, "out = " + text, consts)
+        if v is None:
+            ctx.traces_validated += 1
+        else:
+            ctx.violations.append(v)
+            if len(ctx.violations) >= 3:
+                return
+
+
+def check_dense_const_bound(ctx, f, w1, w2, text, consts):
+    from .. import dense as D
+    extra = {"consts": [tuple(c) for c in consts]}
+    _, o1 = D.eval_offline(f, w1, text=text, extra=extra)
+    _, o2 = D.eval_offline(f, w2, text=text, extra=extra)
+    h = D.dense_horizon(f)
+    rep = {"monitor": "offc", "dense_cb": [text, consts], "spec": text, "formula": F.to_proto(f), "w1": D.sig_rep(w1), "w2": D.sig_rep(w2),
+           "horizon": str(h), "impl_w1": o1, "impl_w2": o2}
+    if o1[0] != "ok" or o2[0] != "ok":
+        return Violation("dense offline raised %r / %r: %s (consts %r)" % (o1[:2], o2[:2], text, consts), rep, stream="ext-c/const-bound")
+    dom, end1 = D.domain_of(f, w1)
+    if h is None or end1 is None or end1 - h <= dom:
+        return None
+    hi = end1 - h - D.GRID / 2          # strictly inside: t + h < end of w1
+    if hi < dom:
+        return None
+    d = D.step_equal(D.samples_of(o1[1]), D.samples_of(o2[1]), dom, hi)
+    if d:
+        return Violation("settled value at t=%s (horizon %s, end of w1 %s) changes from %r to %r when the signals are extended: %s (consts %r)"
+                         % (d[0], h, end1, d[1], d[2], text, consts), rep, stream="ext-c/const-bound")
+    ctx.nontrivial.add((text, str(rep["w1"])))
+    return None
+
+
 def shrink_violation(ctx, case, v):
     """A smaller failing case (plain cases only: text = to_text(f), fresh object): samples of w1 dropped, sub-formulas replaced
     by children, bounds and values reduced; the extensions keep their tails behind the shrunk w1."""
-    if case.get("render") or case.get("reconf"):
+    if case.get("render") or case.get("reconf") or case.get("cb"):
         return v
     n0 = case["n"]
     tails = [{k: list(e[k][n0:]) for k in e} for e in case["exts"]]
@@ -197,6 +325,12 @@ def check_case(ctx, case, hor, m_rho1):
         period = Fraction(period)
         text = c08.render(random.Random(seed), f, unit, period * c08.NS[punit], [], unl)
         kw = dict(unit=unit, sampling=(int(period) if period.denominator == 1 else float(period), punit, 0.1), limit=8.0, timeout_is_outcome=True)
+    if case.get("cb"):
+        from fractions import Fraction
+        text, unit, period, punit, consts = case["cb"][:5]
+        period = Fraction(period)
+        kw = dict(unit=unit, sampling=(int(period) if period.denominator == 1 else float(period), punit, 0.1), limit=8.0, timeout_is_outcome=True,
+                  consts=[tuple(c) for c in consts])
     reconf_obj = None
     if case.get("reconf"):
         text = "out = " + F.to_text(f, bound=lambda k: str(2 * k))
@@ -223,7 +357,7 @@ def check_case(ctx, case, hor, m_rho1):
             return reconf_obj.evaluate(ds)
         return impl.guarded(go)
     o1 = evaluate(w1, n1)
-    rep = {"reconf": bool(case.get("reconf")), "render": case.get("render"), "spec": text, "formula": F.to_proto(f), "n": n1, "data": w1, "exts": case["exts"], "horizon": hor, "impl_w1": o1}
+    rep = {"reconf": bool(case.get("reconf")), "render": case.get("render"), "cb": case.get("cb"), "spec": text, "formula": F.to_proto(f), "n": n1, "data": w1, "exts": case["exts"], "horizon": hor, "impl_w1": o1}
     if o1[0] != "ok":
         return Violation("evaluate() raised %r on %s" % (o1[1:], text), rep, stream=case["stream"])
     v1 = [p[1] for p in o1[1]]
@@ -274,6 +408,8 @@ def explore(ctx, rng, count, gen=None):
         ctx.evaluations += 1
         ctx.count("stream:" + c["stream"])
         ctx.count("hor=%d" % hor if hor < 6 else "hor>=6")
+        if c.get("cb"):
+            ctx.count("const-bound:" + c["cb"][5])
         v = check_case(ctx, c, hor, m_rho)
         if v is None:
             ctx.traces_validated += 1
@@ -287,9 +423,13 @@ def explore(ctx, rng, count, gen=None):
 
 def replay(ctx, obj):
     f = F.from_proto(obj["formula"])
+    if obj.get("dense_cb"):
+        from .. import dense as D
+        v = check_dense_const_bound(Ctx(ctx.id, ctx.tier, ctx.seed), f, D.sig_of_rep(obj["w1"]), D.sig_of_rep(obj["w2"]), *obj["dense_cb"])
+        return (v is None), (v.what if v else "settled values are stable on the replayed case")
     c = {"stream": "replay", "f": f, "n": obj["n"], "data": {k: [float(x) for x in v] for k, v in obj["data"].items()},
          "exts": [{k: [float(x) for x in v] for k, v in e.items()} for e in obj["exts"]], "decl": F.variables(f) or ["a"],
-         "render": obj.get("render"), "reconf": obj.get("reconf")}
+         "render": obj.get("render"), "reconf": obj.get("reconf"), "cb": obj.get("cb")}
     (hor, m_rho), = model([c])
     v = check_case(Ctx(ctx.id, ctx.tier, ctx.seed), c, hor, m_rho)
     return (v is None), (v.what if v else "settled values are stable on the replayed case")
@@ -299,6 +439,10 @@ def run(ctx):
     explore(ctx, ctx.subrng("ext-d"), ctx.budget(1200, 10000))
     if not ctx.violations:
         explore(ctx, ctx.subrng("shared-var"), ctx.budget(160, 1500), gen_shared_var_case)
+    if not ctx.violations:
+        explore(ctx, ctx.subrng("const-bound"), ctx.budget(100, 800), gen_const_bound_case)
+    if not ctx.violations:
+        explore_dense_const_bound(ctx, ctx.subrng("const-bound-c"), ctx.budget(40, 400))
     if not ctx.violations:
         try:
             from . import c04
